@@ -32,6 +32,18 @@ def get_installed_version(pkg_name):
         return None
 
 
+def same_version(version_a, version_b):
+    """Return whether two version strings name the same version; a string that is not a version only equals itself."""
+    from packaging.version import InvalidVersion, Version  # pylint: disable=import-outside-toplevel
+
+    if version_a == version_b:
+        return True
+    try:
+        return Version(version_a) == Version(version_b)
+    except InvalidVersion:
+        return False
+
+
 def update_unpinned_versions(package_dict):
     """Check for current installed version of each unpinned package."""
     requirements_to_pop = []
@@ -195,10 +207,10 @@ async def install_requirements(hass, config_entry, pyscript_folder):
     # Import packaging inside install_requirements so that we can use Home Assistant to install it
     # if it can't been found
     try:
-        from packaging.version import Version  # pylint: disable=import-outside-toplevel
+        from packaging.version import Version  # noqa: F401  pylint: disable=import-outside-toplevel,unused-import
     except ModuleNotFoundError:
         await async_process_requirements(hass, DOMAIN, ["packaging"])
-        from packaging.version import Version  # pylint: disable=import-outside-toplevel
+        from packaging.version import Version  # noqa: F401  pylint: disable=import-outside-toplevel,unused-import
 
     all_requirements = await hass.async_add_executor_job(
         process_all_requirements, pyscript_folder, REQUIREMENTS_PATHS, REQUIREMENTS_FILE
@@ -240,9 +252,9 @@ async def install_requirements(hass, config_entry, pyscript_folder):
             # If installed package is not the same version as the one we last installed,
             # that means that the package is externally managed now so we shouldn't touch it
             # and should remove it from our internal tracker
-            if package in pyscript_installed_packages and Version(
-                pyscript_installed_packages[package]
-            ) != Version(pkg_installed_version):
+            if package in pyscript_installed_packages and not same_version(
+                pyscript_installed_packages[package], pkg_installed_version
+            ):
                 _LOGGER.warning(
                     (
                         "Version '%s' for package '%s' detected in '%s' will be ignored in favor of"
@@ -256,8 +268,8 @@ async def install_requirements(hass, config_entry, pyscript_folder):
                 pyscript_installed_packages.pop(package)
             # If there is a version mismatch between what we want and what is installed, we
             # can overwrite it since we know it was last installed by us
-            elif package in pyscript_installed_packages and Version(version_to_install) != Version(
-                pkg_installed_version
+            elif package in pyscript_installed_packages and not same_version(
+                version_to_install, pkg_installed_version
             ):
                 requirements_to_install[package] = all_requirements[package]
             # If there is an installed version that we have not previously installed, we
